@@ -1,9 +1,9 @@
 package main
 
 import (
-	"go/types"
 	"fmt"
 	"go/token"
+	"go/types"
 	"strings"
 
 	"golang.org/x/tools/go/ssa"
@@ -282,60 +282,96 @@ func ruleInvalidNaNPairing(w *World, r *RuleResult) {
 var signedSpecialFns = []string{"(*Context).add", "(*Context).Mul", "(*Context).quoSpecials", "(*Context).Pow"}
 
 func ruleSpecialSigns(w *World, r *RuleResult) {
-	for _, name := range signedSpecialFns {
-		f := w.fn(name)
-		if f == nil {
-			r.anchorMissing(name)
+	for _, topName := range signedSpecialFns {
+		top := w.fn(topName)
+		if top == nil {
+			r.anchorMissing(topName)
 			continue
 		}
-		di := destArgIndex(w, f)
-		var sites []*ssa.Call
-		sites = append(sites, w.sharedSetSites(f, "decimalInfinity")...)
-		sites = append(sites, w.sharedSetSites(f, "decimalZero")...)
-		sites = append(sites, w.sharedSetSites(f, "decimalOne")...)
-		for _, c := range w.callsTo(f, "(*Decimal).SetInt64") {
-			if c.Common().Args[0] == ssa.Value(f.Params[di]) {
-				sites = append(sites, c)
+		// the function and the helpers its special cases may have been moved into
+		for _, f := range w.closureFuncs(top) {
+			name := w.shortName(f)
+			di := destArgIndex(w, f)
+			if di < 0 || di >= len(f.Params) || !isDecimalPtr(f.Params[di].Type()) {
+				continue
 			}
-		}
-		for i, c := range sites {
-			key := fmt.Sprintf("%s | special/zero result #%d gets its sign from the operands", name, i+1)
-			okSign := func(in ssa.Instruction) bool {
-				st, ok := in.(*ssa.Store)
-				if !ok || w.exprOf(f, st.Addr).String() != "&"+f.Params[di].Name()+".Negative" {
-					return false
+			var sites []*ssa.Call
+			sites = append(sites, w.sharedSetSites(f, "decimalInfinity")...)
+			sites = append(sites, w.sharedSetSites(f, "decimalZero")...)
+			sites = append(sites, w.sharedSetSites(f, "decimalOne")...)
+			for _, c := range w.callsTo(f, "(*Decimal).SetInt64") {
+				if c.Common().Args[0] == ssa.Value(f.Params[di]) {
+					sites = append(sites, c)
 				}
-				n := 0
-				for l := range w.valueAndControlLeaves(f, st.Val) {
-					if strings.HasSuffix(l, ".Negative") {
-						n++
+			}
+			for i, c := range sites {
+				key := fmt.Sprintf("%s | special/zero result #%d gets its sign from the operands", name, i+1)
+				okSign := func(in ssa.Instruction) bool {
+					st, ok := in.(*ssa.Store)
+					if !ok || w.exprOf(f, st.Addr).String() != "&"+f.Params[di].Name()+".Negative" {
+						return false
 					}
-				}
-				return n > 0
-			}
-			// a helper that copies the special and sets the sign from an argument
-			if g := callee(c); g != nil && w.shortName(g) != "(*Decimal).Set" && w.shortName(g) != "(*Decimal).SetInt64" {
-				n := 0
-				for _, a := range c.Common().Args {
-					for _, v := range w.storedFieldValues(f, c, a, "Negative", 0) {
-						if strings.Contains(v, ".Negative") || w.localDerivesFromSigns(f, c, v) {
+					n := 0
+					for l := range w.valueAndControlLeaves(f, st.Val) {
+						if strings.HasSuffix(l, ".Negative") {
 							n++
 						}
 					}
+					// a helper that is handed the sign: every call passes one computed from the operands' signs
+					if prm, isP := st.Val.(*ssa.Parameter); isP && f != top && n == 0 {
+						idx := -1
+						for i, q := range f.Params {
+							if q == prm {
+								idx = i
+							}
+						}
+						callers := w.callersOf(f)
+						all := idx >= 0 && len(callers) > 0
+						for _, cs := range callers {
+							if idx >= len(cs.Common().Args) {
+								all = false
+								break
+							}
+							m := 0
+							for l := range w.valueAndControlLeaves(cs.Parent(), cs.Common().Args[idx]) {
+								if strings.HasSuffix(l, ".Negative") {
+									m++
+								}
+							}
+							if m == 0 {
+								all = false
+							}
+						}
+						if all {
+							return true
+						}
+					}
+					return n > 0
 				}
-				if n > 0 {
-					r.ok(key, w.instrPos(c), "the helper stores d.Negative from an argument computed from the operands' signs", true)
-					continue
+				// a helper that copies the special and sets the sign from an argument
+				if g := callee(c); g != nil && w.shortName(g) != "(*Decimal).Set" && w.shortName(g) != "(*Decimal).SetInt64" {
+					n := 0
+					for _, a := range c.Common().Args {
+						for _, v := range w.storedFieldValues(f, c, a, "Negative", 0) {
+							if strings.Contains(v, ".Negative") || w.localDerivesFromSigns(f, c, v) {
+								n++
+							}
+						}
+					}
+					if n > 0 {
+						r.ok(key, w.instrPos(c), "the helper stores d.Negative from an argument computed from the operands' signs", true)
+						continue
+					}
 				}
-			}
-			// the one-operand exits (0**positive etc.) are still covered: Pow stores neg on all of them
-			ok, ret := mustPassFrom(c, okSign, func(rt *ssa.Return) bool { return w.isErrorReturn(rt) })
-			if ok {
-				r.ok(key, w.instrPos(c), "d.Negative is stored afterwards from an expression over the operands' Negative fields", true)
-			} else if name == "(*Context).Pow" && w.isPowPositiveExit(f, c) {
-				r.ok(key, w.instrPos(c), "tabled: x**0 = +1 for finite non-zero x", false)
-			} else {
-				r.bad(key, w.instrPos(c), fmt.Sprintf("an unsigned shared constant is copied into the destination and returned at %s without setting the sign from the operands", w.instrPos(ret)))
+				// the one-operand exits (0**positive etc.) are still covered: Pow stores neg on all of them
+				ok, ret := mustPassFrom(c, okSign, func(rt *ssa.Return) bool { return w.isErrorReturn(rt) })
+				if ok {
+					r.ok(key, w.instrPos(c), "d.Negative is stored afterwards from an expression over the operands' Negative fields", true)
+				} else if topName == "(*Context).Pow" && w.isPowPositiveExit(f, c) {
+					r.ok(key, w.instrPos(c), "tabled: x**0 = +1 for finite non-zero x", false)
+				} else {
+					r.bad(key, w.instrPos(c), fmt.Sprintf("an unsigned shared constant is copied into the destination and returned at %s without setting the sign from the operands", w.instrPos(ret)))
+				}
 			}
 		}
 	}
